@@ -8,10 +8,10 @@ cd "$wt" || exit 2
 git checkout -q -- . ; rm -f tests/demo_verif_*.rs
 cp "$src/demo.rs" tests/demo_verif_$k.rs
 echo "== without patch: demo must pass"
-CARGO_NET_OFFLINE=true cargo test --offline --test demo_verif_$k >/tmp/mut/$id.demo0.log 2>&1; r0=$?
+CARGO_NET_OFFLINE=true cargo test --offline $FEATURES --test demo_verif_$k >/tmp/mut/$id.demo0.log 2>&1; r0=$?
 git apply "$src/patch.diff" || { echo "patch does not apply"; exit 2; }
 echo "== with patch: demo must fail"
-CARGO_NET_OFFLINE=true cargo test --offline --test demo_verif_$k >/tmp/mut/$id.demo1.log 2>&1; r1=$?
+CARGO_NET_OFFLINE=true cargo test --offline $FEATURES --test demo_verif_$k >/tmp/mut/$id.demo1.log 2>&1; r1=$?
 rm -f tests/demo_verif_$k.rs
 echo "== with patch: pinned suite must pass"
 /verif/scripts/baseline.sh "$wt" >/tmp/mut/$id.base.log 2>&1; rb=$?
